@@ -184,6 +184,7 @@ func (r *runner) run(ctx context.Context, w *world, p plan, pick func(n int) int
 	for _, id := range w.ids {
 		distinct[string(id)] = true
 	}
+	var earlyKeys []delivery // keys messages of the earlier release (an earlier slot), for the access node later on
 	if p.prerelease {
 		// release the first identity alone: everybody triggered, everything delivered in order
 		first := [][]byte{w.ids[0]}
@@ -215,6 +216,7 @@ func (r *runner) run(ctx context.Context, w *world, p plan, pick func(n int) int
 							msgs = append(msgs, delivery{j, msgs[k].to, km, "keys"})
 						}
 					}
+					earlyKeys = append(earlyKeys, delivery{-1, msgs[k].to, km, "keys"})
 				}
 			}
 		}
@@ -313,6 +315,19 @@ func (r *runner) run(ctx context.Context, w *world, p plan, pick func(n int) int
 						pending = append(pending, delivery{-1, d.to, km, "keys"})
 					}
 				}
+			}
+		}
+	}
+	// the keys messages of the earlier release reach the access node only now, after those of the later slot
+	if w.an != nil {
+		for _, d := range earlyKeys {
+			res := w.an.DeliverMsg(ctx, d.msg)
+			schedule = append(schedule, fmt.Sprintf("accessnode<-keys(%d) of the earlier release", d.from))
+			r.res.Evaluations++
+			r.res.Count("accessnode:earlier-slot-delivered-late")
+			if res.Panic != "" || res.Validation != pubsub.ValidationAccept {
+				r.violate("accessnode-rejects", fmt.Sprintf("%s: the access node did not accept the keys message of keyper %d for the earlier slot, delivered after keys of a later slot (validation=%d panic=%q)", w.fl, d.from, res.Validation, firstLine(res.Panic)), schedule, nil)
+				return false
 			}
 		}
 	}
